@@ -12,6 +12,7 @@ package fakecql
 import (
 	"bytes"
 	"crypto/md5"
+	"crypto/sha256"
 	"encoding/hex"
 	"errors"
 	"fmt"
@@ -124,6 +125,25 @@ type Node struct {
 	prepared map[string]prepared
 	listed   bool
 	up       bool
+	muted    bool // the node reads but never answers (heartbeat silence)
+}
+
+// SetListed adds a running node to / removes it from the peers table without touching its listener.
+func (c *Cluster) SetListed(ip string, listed bool) {
+	if n := c.Node(ip); n != nil {
+		n.mu.Lock()
+		n.listed = listed
+		n.mu.Unlock()
+	}
+}
+
+// Mute makes the node stop answering anything on its existing connections (sockets stay open).
+func (c *Cluster) Mute(ip string, on bool) {
+	if n := c.Node(ip); n != nil {
+		n.mu.Lock()
+		n.muted = on
+		n.mu.Unlock()
+	}
 }
 
 type Conn struct {
@@ -461,6 +481,12 @@ func (c *Cluster) versionOK(v primitive.ProtocolVersion) bool {
 
 func (cn *Conn) handle(a *Attempt) {
 	c := cn.N.C
+	cn.N.mu.Lock()
+	muted := cn.N.muted && cn.Started
+	cn.N.mu.Unlock()
+	if muted {
+		return
+	}
 	hdr := &a.Header
 	if !c.versionOK(hdr.Version) {
 		v := hdr.Version
@@ -788,20 +814,35 @@ func (cn *Conn) SendFrame(frm *frame.Frame) error {
 }
 
 // EmitEvent writes an EVENT frame on every registered connection (the control connection);
-// returns the number of connections written to.
-func (c *Cluster) EmitEvent(id string, msg message.Message) int {
+// returns the number of connections written to. The logged hash identifies the event's content.
+func (c *Cluster) EmitEvent(id string, kind string, msg message.Message) int {
 	n := 0
 	for _, node := range c.Nodes() {
 		for _, cn := range node.Conns() {
 			if cn.Registered && !cn.Closed() {
-				c.T.Emit("BackendEvent", "id", id, "b", cn.ID, "host", node.IP, "kind", fmt.Sprintf("%T", msg))
-				if err := cn.SendFrame(frame.NewFrame(cn.Version, -1, msg)); err == nil {
+				frm := frame.NewFrame(cn.Version, -1, msg)
+				h := ""
+				if raw, err := frame.NewRawCodec().ConvertToRawFrame(frm); err == nil {
+					h = HashBody(raw.Header.Flags, raw.Header.OpCode, raw.Body)
+				}
+				if !cn.emitIfOpen("BackendEvent", "id", id, "b", cn.ID, "host", node.IP, "kind", kind, "h", h) {
+					continue
+				}
+				if err := cn.SendFrame(frm); err == nil {
 					n++
 				}
 			}
 		}
 	}
 	return n
+}
+
+// HashBody identifies (flags without the compression bit, opcode, uncompressed body).
+func HashBody(flags primitive.HeaderFlag, op primitive.OpCode, body []byte) string {
+	h := sha256.New()
+	h.Write([]byte{byte(flags &^ primitive.HeaderFlagCompressed), byte(op)})
+	h.Write(body)
+	return hex.EncodeToString(h.Sum(nil))[:16]
 }
 
 // ControlConn returns the registered (control) connection, if any.
